@@ -34,6 +34,9 @@ fn sema_sig(text: &str) -> Vec<(Option<String>, String, Vec<(usize, usize)>)> {
 /// returns Ok(Some(formatted)) when checked
 pub fn check_any(text: &str, ev: &mut Evidence, origin: &str) -> Result<Option<String>, Violation> {
     ev.eval();
+    if ev.samples.len() < 3 && ev.evaluations % 503 == 1 {
+        ev.sample(json!({"text": text, "origin": origin}));
+    }
     let t2 = text.to_string();
     let out = match lw::catch(move || lw::format_text(&t2)) {
         Ok(o) => o,
@@ -86,6 +89,9 @@ const RULE18: &str = "syntactically valid grammar files: generated grammars (all
 
 pub fn check_idem(text: &str, ev: &mut Evidence, origin: &str) -> Result<(), Violation> {
     ev.eval();
+    if ev.samples.len() < 3 && ev.evaluations % 503 == 1 {
+        ev.sample(json!({"text": text, "origin": origin}));
+    }
     if lw::syntax_diag_count(text) > 0 {
         ev.exclude("text has syntax errors");
         return Ok(());
